@@ -213,7 +213,7 @@ Proof. exact handler_out_is. Qed.
 Print Assumptions C10_what_is_set_is_sent.
 
 Theorem C10_wellknown : forall cfg h mc req,
-  sp_target cfg req = TWellKnown ->
+  sp_target cfg req = TWellKnown -> dp_has DP_BLOCK2 (m_opts req) = false ->
   sp_handler_out cfg h mc req =
   dp_finish cfg mc (sp_req' cfg req) (Some NR_F_HAS_MCAST) false false
     (mkMsg (dp_resp_type req) 69 (m_mid req) (m_token req) [(DP_CONTENT_FORMAT, [40])]
